@@ -60,7 +60,7 @@ def dead(pid):
 def kill_pids(pids):
     for p in pids:
         try:
-            os.kill(p, getattr(signal, HOW))
+            os.kill(p, T.signum(HOW))
         except ProcessLookupError:
             pass
     t = time.time()
